@@ -315,6 +315,42 @@ const BATCHER_SRC: &str = r#"
 :bail RETURNDATASIZE PUSH 0 PUSH 0 RETURNDATACOPY RETURNDATASIZE PUSH 0 REVERT
 "#;
 
+/// RangeStore: calldata = op (word 0: 0 = store, 1 = sum), start (word 1), count (word 2), value (word 3).
+/// store: slot[i] := value for i in start..start+count. sum: returns the sum of those slots.
+const RANGESTORE_SRC: &str = r#"
+    PUSH 64 CALLDATALOAD PUSH 32 CALLDATALOAD ADD
+    PUSH 32 CALLDATALOAD
+    PUSH 0 CALLDATALOAD @sum JUMPI
+:sloop
+    DUP2 DUP2 LT ISZERO @done JUMPI
+    PUSH 96 CALLDATALOAD DUP2 SSTORE
+    PUSH 1 ADD
+    @sloop JUMP
+:done STOP
+:sum
+    PUSH 0
+:mloop
+    DUP3 DUP3 LT ISZERO @mend JUMPI
+    DUP2 SLOAD ADD
+    SWAP1 PUSH 1 ADD SWAP1
+    @mloop JUMP
+:mend
+    PUSH 0 MSTORE PUSH 32 PUSH 0 RETURN
+"#;
+
+pub fn rangestore_init() -> Vec<u8> {
+    initcode(&assemble(RANGESTORE_SRC))
+}
+
+pub fn rangestore_call(sum: bool, start: u64, count: u64, value: u64) -> Vec<u8> {
+    let mut v = Vec::with_capacity(128);
+    v.extend_from_slice(&word_u64(sum as u64));
+    v.extend_from_slice(&word_u64(start));
+    v.extend_from_slice(&word_u64(count));
+    v.extend_from_slice(&word_u64(value));
+    v
+}
+
 /// Returns NUMBER || BLOCKHASH(NUMBER-1): block-dependent, but none of timestamp/randomness/gas/txid.
 pub fn numhash_runtime() -> Vec<u8> {
     assemble("NUMBER PUSH 0 MSTORE PUSH 1 NUMBER SUB BLOCKHASH PUSH 32 MSTORE PUSH 64 PUSH 0 RETURN")
